@@ -431,9 +431,12 @@ class LexicalParent(HasLabel, Generic[ChildType], ABC):
 
 
 def _ensure_path_is_not_cyclic(parent, child: Lexical) -> None:
-    if isinstance(parent, Lexical) and parent.lexical_path.startswith(
-        child.lexical_path + child.lexical_delimiter
-    ):
+    # Walk up from the prospective parent looking for the child object itself;
+    # comparing path strings misses `parent is child` and is fooled by equal labels
+    ancestor = parent
+    while isinstance(ancestor, Lexical) and ancestor is not child:
+        ancestor = ancestor.parent
+    if ancestor is child:
         raise CyclicPathError(
             f"{parent.label} cannot be the parent of {child.label}, because its "
             f"lexical path is already in {child.label}'s path and cyclic paths "
